@@ -151,18 +151,21 @@ Definition ext_skip_decode (k : kind) (data : bytes) : res (N * N * bytes) :=
   if bad_nexthdr k nh then Err else Ok (nh, el, payload).
 
 Definition wf_opt (o : opt) : Prop :=
-  o_type o < 256 /\ o_datalen o = N.of_nat (length (o_data o)) /\ o_datalen o < 256 /\
-  wf_bytes (o_data o).
+  o_type o < 256 /\
+  (o_type o = 0 \/
+   (o_datalen o = N.of_nat (length (o_data o)) /\ o_datalen o < 256 /\ wf_bytes (o_data o))).
 Definition wf_optb (o : opt) : bool :=
-  (o_type o <? 256) && (o_datalen o =? N.of_nat (length (o_data o))) && (o_datalen o <? 256) &&
-  wf_bytesb (o_data o).
+  (o_type o <? 256) &&
+  ((o_type o =? 0) ||
+   ((o_datalen o =? N.of_nat (length (o_data o))) && (o_datalen o <? 256) && wf_bytesb (o_data o))).
 
 (** wf for FixLengths=true: only the data length matters, alignment values are uint8 *)
 Definition wf_opt_fix (o : opt) : Prop :=
-  o_type o < 256 /\ (length (o_data o) < 256)%nat /\ wf_bytes (o_data o) /\ o_ax o < 256 /\ o_ay o < 256.
+  o_type o < 256 /\ o_ax o < 256 /\ o_ay o < 256 /\
+  (o_type o = 0 \/ ((length (o_data o) < 256)%nat /\ wf_bytes (o_data o))).
 Definition wf_opt_fixb (o : opt) : bool :=
-  (o_type o <? 256) && Nat.ltb (length (o_data o)) 256 && wf_bytesb (o_data o) &&
-  (o_ax o <? 256) && (o_ay o <? 256).
+  (o_type o <? 256) && (o_ax o <? 256) && (o_ay o <? 256) &&
+  ((o_type o =? 0) || (Nat.ltb (length (o_data o)) 256 && wf_bytesb (o_data o))).
 
 Definition wf_ext (k : kind) (e : ext) : Prop :=
   e_nexthdr e < 256 /\ bad_nexthdr k (e_nexthdr e) = false /\ Forall wf_opt (e_opts e) /\
